@@ -1219,7 +1219,7 @@ func c09RevisionFacts(w *World) c09RevFacts {
 					}
 					continue
 				}
-				latchCond := sym.PathCond(l.Header, lt, nil)
+				latchCond := sym.RoundCond(l.Header, lt, nil)
 				for _, o := range sym.Origins(v, nil, 0) {
 					full := pcAndF(latchCond, o.cond)
 					if !pcSat(full) {
